@@ -760,9 +760,18 @@ structure SlotGood (cfg : Cfg) (s : Slot) : Prop where
 def PairOk (s : Slot) (store : List Rec) (p : Pair) : Prop :=
   p.init = true → ListOk s true store p.asc ∧ ListOk s false store p.desc
 
-theorem Pair.insert_init (cfg : Cfg) (ps : Slot) (r : Rec) (p : Pair) : (p.insert cfg ps r).init = p.init := by
+theorem invalidates_false_of_resort (cfg : Cfg) (ps ss : Slot) (h : incrSort cfg ps = some ss) : invalidates cfg ps = false := by
+  cases ps with
+  | key => simp only [incrSort, invalidates] at h ⊢; cases hr : cfg.resortKey <;> simp_all
+  | created => simp only [incrSort, invalidates] at h ⊢; cases hr : cfg.resortCreated <;> simp_all
+  | updated => simp only [incrSort, invalidates] at h ⊢; cases hr : cfg.resortUpdated <;> simp_all
+  | expire => simp only [incrSort, invalidates] at h ⊢; cases hr : cfg.resortExpire <;> simp_all
+  | value t => simp only [incrSort, invalidates] at h ⊢; cases hr : cfg.resortValue <;> simp_all
+
+theorem Pair.insert_init (cfg : Cfg) (ps ss : Slot) (r : Rec) (p : Pair) (hs : incrSort cfg ps = some ss) :
+    (p.insert cfg ps r).init = p.init := by
   unfold Pair.insert
-  dsimp only
+  simp only [invalidates_false_of_resort cfg ps ss hs, hs, Bool.false_eq_true, if_false]
   repeat' split
   all_goals rfl
 
@@ -771,7 +780,7 @@ theorem Pair.insert_lists (cfg : Cfg) (ps ss : Slot) (r : Rec) (p : Pair)
     (p.insert cfg ps r).asc = sortBy ss true (addTo p.asc r) ∧
     (p.insert cfg ps r).desc = sortBy ss false (addTo p.desc r) := by
   unfold Pair.insert
-  simp only [hi, hg, Bool.not_true, Bool.false_eq_true, if_false, hs]
+  simp only [hi, hg, Bool.not_true, Bool.false_eq_true, if_false, hs, invalidates_false_of_resort cfg ps ss hs]
   repeat' split
   all_goals exact ⟨rfl, rfl⟩
 
@@ -793,7 +802,7 @@ theorem PairOk.insert {cfg : Cfg} {s : Slot} (hg : SlotGood cfg s) {store : List
     (hp : PairOk s store p) (r : Rec) (hfresh : ∀ x ∈ store, x.key ≠ r.key) :
     PairOk s (store ++ [r]) (p.insert cfg s r) := by
   intro hi
-  rw [Pair.insert_init] at hi
+  rw [Pair.insert_init cfg s s r p hg.resort] at hi
   obtain ⟨ha, hd⟩ := hp hi
   cases hc : carries s r
   · rw [Pair.insert_skip cfg s r p (by rw [hg.guard, hc])]
